@@ -186,6 +186,10 @@ class Effects:
                     for idx in INPLACE_FUNCS[f[1]]:
                         if idx < len(c[2]):
                             hit(c[2][idx], e, f"{f[1]}({show(c[2][idx], 40)}, ...)")
+                # ufunc.at(a, indices, b): unbuffered in-place operation on a
+                if c[2] and ((head(f) == "glob" and f[1].startswith("numpy.") and f[1].endswith(".at"))
+                             or (head(f) == "attr" and f[2] == "at" and head(strip(f[1])) == "glob" and strip(f[1])[1].startswith("numpy."))):
+                    hit(c[2][0], e, f"{show(f, 30)}({show(c[2][0], 40)}, ...)  (in place)")
                 kw = dict(c[3])
                 if is_const(kw.get("inplace"), True) and head(f) == "attr":
                     hit(f[1], e, f"{show(f[1], 40)}.{f[2]}(inplace=True)")
